@@ -141,6 +141,27 @@ def _json_funcs(ctx) -> Tuple[Func, Func, Optional[Func]]:
         for f in inside:
             if reaches_itself(f) and any(isinstance(n, ast.For) and "_properties" in norm(n.iter) for n in f.own_nodes()):
                 conv = f
+    if conv is None:
+        # the converter may live outside the factory (a method the native delegates to): follow resolved calls
+        seen: Set[int] = set()
+        work = [stringify]
+        while work and conv is None:
+            g = work.pop()
+            if id(g) in seen:
+                continue
+            seen.add(id(g))
+            for cs in ctx.cg.sites_of.get(id(g), []):
+                if cs.kind != "resolved":
+                    continue
+                for t in cs.targets:
+                    if isinstance(t.node, ast.Lambda) or t.module.name not in ("context", "vm", "values"):
+                        continue
+                    self_rec = any(c2.kind == "resolved" and any(x is t for x in c2.targets) for c2 in ctx.cg.sites_of.get(id(t), []))
+                    if self_rec and any(isinstance(n, ast.Return) and isinstance(n.value, ast.Constant) and n.value.value == "null" for n in t.own_nodes()):
+                        conv = t
+                        break
+                    if len(seen) < 12:
+                        work.append(t)
     return parse, stringify, conv
 
 
@@ -233,7 +254,7 @@ def rule_json_omission(ctx, rep, rid: str) -> None:
         has_sentinel = any("UNDEFINED" in g and ("JSFunction" in g or "callable" in g) for g in none_guards)
         tested = False
         for n in ast.walk(loop):
-            if isinstance(n, ast.Assign) and isinstance(n.value, ast.Call) and isinstance(n.value.func, ast.Name) and n.value.func.id == conv.name and isinstance(n.targets[0], ast.Name):
+            if isinstance(n, ast.Assign) and isinstance(n.value, ast.Call) and ((isinstance(n.value.func, ast.Name) and n.value.func.id == conv.name) or (isinstance(n.value.func, ast.Attribute) and n.value.func.attr == conv.name)) and isinstance(n.targets[0], ast.Name):
                 tv = n.targets[0].id
                 for m in ast.walk(loop):
                     if isinstance(m, ast.If) and norm(m.test) == f"{tv} is not None":
